@@ -288,6 +288,8 @@ func run(raw json.RawMessage) driver.Result {
 		o.Twins = true
 		o.DeepPtrs = true
 		o.NilElems = true
+		o.OddTags = true
+		o.ZeroSized = true
 		o.IfaceSkip = r.Chance(1, 4)
 		T = rty.GenStruct(r, o, 0)
 	}
